@@ -239,6 +239,17 @@ func (f *Frame) checkPanicExit(e Exit) {
 	con := f.con
 	name := shortFn(f.fn)
 	tag := f.exitSite(e)
+	if len(con.PanicsWith) > 0 {
+		penv := f.envPost(e.St, nil)
+		pv := f.termOf(e.PanicVal)
+		if pv == "" {
+			pv = vc.freshConst("panicval", "Iface")
+		}
+		penv.vars["panicvalue"] = Val{T: pv, Typ: types.NewInterfaceType(nil, nil)}
+		for i, c := range con.PanicsWith {
+			vc.oblige("panic", fmt.Sprintf("%s#panics_with:%d@%s", name, i+1, tag), e.Cond, penv.evalBool(c.E), f.pos(e.Pos), "every panic carries a value satisfying: "+c.Src+" ("+e.Desc+")")
+		}
+	}
 	if len(con.Panics) > 0 {
 		penv := f.envPost(f.entry, nil)
 		var conds []string
